@@ -4,6 +4,10 @@ import TexcraftModel.Lemmas.C17Cover
 import TexcraftModel.Lemmas.C17Compress
 import TexcraftModel.Lemmas.C17Graph
 import TexcraftModel.Lemmas.C17NLAlgo
+import TexcraftModel.Lemmas.C17Reader
+import TexcraftModel.Lemmas.C17Remap
+import TexcraftModel.Lemmas.C17Unobs
+import TexcraftModel.Lemmas.C17LateBreak
 /-!
 # C17 — font-metric arithmetic: theorems
 
@@ -239,8 +243,9 @@ when `δ` is odd the class that attains `δ` admits no integer representative wi
 theorem compress_tolerance_attained (values : List Int) (maxSize : Nat) (hmax : 1 ≤ maxSize)
     (hr : ∀ v ∈ values, -2147483648 ≤ v ∧ v ≤ 2147483647) :
     ∃ table m δ, compress values maxSize = .ok (table, m) ∧ 0 ≤ δ ∧
-      CompressSpecAt values maxSize table m δ ∧ Attained values m δ :=
-  compress_meets_spec_strong values maxSize hmax hr
+      CompressSpecAt values maxSize table m δ ∧ Attained values m δ := by
+  obtain ⟨table, m, δ, h1, h2, h3, h4, _⟩ := compress_meets_spec_strong values maxSize hmax hr
+  exact ⟨table, m, δ, h1, h2, h3, h4⟩
 
 /-- **tfm_table_check_sound.** The checker that the correspondence runs on the dimension tables
 of the *serialised and re-read* TFM file produced from a property list (stream `tf`) is sound:
@@ -282,5 +287,110 @@ example : compress [1, 4, 5, 100, 101] 2 = .ok ([0, 3, 100], [(1, 1), (4, 1), (5
   decide
 example : checkCompress [1, 4, 5, 100, 101] 2 [0, 3, 100] [(1, 1), (4, 1), (5, 1), (100, 2), (101, 2)]
     = (true, true, true) := by decide
+
+/-! ## 5. Deepening round: reader totality, index remapping, exact guards -/
+
+/-- **parse_total_range.** On *arbitrary* text the PL decimal reader (characters: spaces, the
+`R`/`D` prefix, runs of signs, digits before and after the point, only the first seven fraction
+digits used) returns either a value in `(−2^31, 2^31)` without warning, or `DecimalNumberIsTooBig`
+with the documented replacement `0` / `1.0`, or `InvalidPrefixForDecimalNumber` with `0`. The
+lemmas behind it (`readInt_range`, `fracAcc_bound`, `fracValue_range`) bound every accumulator
+far inside `i32`: the `checked_mul/checked_add(..).unwrap()` of the Rust reader cannot fire,
+which is why the model has no panic outcome there. -/
+theorem parse_total_range (s : List Char) :
+    ((parseFix s).warn = .none → -2147483648 < (parseFix s).value ∧ (parseFix s).value < 2147483648) ∧
+    ((parseFix s).warn = .tooBig → (parseFix s).value = 0 ∨ (parseFix s).value = 1048576) ∧
+    ((parseFix s).warn = .invalidPrefix → (parseFix s).value = 0) :=
+  parseFix_range s
+
+/-- **parse_accumulators_in_i32.** The integer accumulator stays in `[0, 2048]` (so
+`acc·10 + d ≤ 20489`), the fraction accumulator in `[0, 10·2^21)`, the rounded fraction in
+`[0, 2^20]`, for every text. -/
+theorem parse_accumulators_in_i32 (s : List Char) :
+    (0 ≤ (readInt s 0).1 ∧ (readInt s 0).1 ≤ 2048) ∧
+    (0 ≤ fracAcc (readFracDigits 7 s).1 ∧ fracAcc (readFracDigits 7 s).1 ≤ 20971519) ∧
+    (0 ≤ fracValue (readFracDigits 7 s).1 ∧ fracValue (readFracDigits 7 s).1 ≤ 1048576) :=
+  ⟨readInt_range s 0 (Int.le_refl 0) (by omega), fracAcc_bound _ (readFracDigits_range 7 s).1,
+    fracValue_range _ (readFracDigits_range 7 s).1⟩
+
+example : parseFix "R 2047.9999999".toList = ⟨1048576, .tooBig⟩ ∧
+    parseFix "D -.00000049999".toList = ⟨0, .none⟩ ∧ parseFix "X".toList = ⟨0, .invalidPrefix⟩ ∧
+    parseFix "R --+ -2047.9999994".toList = ⟨-2147483647, .none⟩ := by decide
+
+/-- **remap_spec.** The model `remapDim` of one dimension of `impl From<pl::File> for tfm::File`
+(compress the characters' values with the true class limit `tfmLimit kind` — all widths, the
+non-zero heights / depths / italic corrections —, then give every character the index of its
+value, zero heights/depths/italics index 0) never panics for `i32` values and: the table starts
+with `0` and has at most `tfmLimit kind + 1` entries; every character's index is at most
+`tfmLimit kind` (fits the 8/4/4/6-bit field, no wrap) and points at an entry within half the
+tolerance of the character's value (`2|v − rep| ≤ δ + δ mod 2`; exactly `0` for a zero
+height/depth/italic); the tolerance is minimal over all covers by `tfmLimit kind` intervals. The
+`tf` stream compares the real table and every character's index, read back from the serialised
+file, with `remapDim`. -/
+theorem remap_spec (kind : Nat) (charVals : List Int)
+    (hr : ∀ v ∈ charVals, -2147483648 ≤ v ∧ v ≤ 2147483647) :
+    ∃ table idx δ, remapDim kind charVals = .ok (table, idx) ∧ idx.length = charVals.length ∧
+      table.head? = some 0 ∧ table.length ≤ tfmLimit kind + 1 ∧ 0 ≤ δ ∧
+      (∀ (j : Nat) (v : Int) (i : Nat), charVals[j]? = some v → idx[j]? = some i →
+        i ≤ tfmLimit kind ∧ (v = 0 → kind ≠ 0 → i = 0) ∧
+        ∃ rep, table[i]? = some rep ∧ 2 * absI (v - rep) ≤ δ + δ % 2) ∧
+      (∀ δ' C, 0 ≤ δ' → δ' < δ → C.length ≤ tfmLimit kind →
+        ¬ Covers δ' C (if kind = 0 then charVals else charVals.filter (· != 0))) :=
+  remapDim_spec kind charVals hr
+
+example : remapDim 1 [0, 100, 200, 0, 300] = .ok ([0, 100, 200, 300], [0, 1, 2, 0, 3]) := by decide
+
+/-- **to_scaled_defined_iff.** The exact guard of `to_scaled` for non-negative design sizes:
+on `i32` words it returns a value (no assert, no overflow) if and only if `−16 ≤ v < 16`. -/
+theorem to_scaled_defined_iff (v ds : Int) (hds0 : 0 ≤ ds) (hds1 : ds ≤ 2147483647)
+    (hi0 : -2147483648 ≤ v) (hi1 : v ≤ 2147483647) :
+    (toScaled v ds).isSome = true ↔ (-16777216 ≤ v ∧ v < 16777216) := by
+  constructor
+  · intro h
+    apply Classical.byContradiction
+    intro hn
+    have := (to_scaled_guard v ds hi0 hi1 (by omega)).1
+    rw [this] at h
+    simp at h
+  · intro ⟨h0, h1⟩
+    obtain ⟨e, hs⟩ := to_scaled_eq_store_scaled v ds hds0 hds1 h0 h1
+    rw [e]; exact hs
+
+/-- **to_scaled_negative_design_size.** Negative design sizes are outside TeX (§568 aborts below
+1pt) and outside the property; the exact behaviour of the Rust code there: for
+`−128pt ≤ design size < 0` (`z ∈ [−2^23, 0]`) and a legal word no overflow check fires (the
+value is the same formula with truncating divisions); below that it can overflow (witness). -/
+theorem to_scaled_negative_design_size (v ds : Int) (hds0 : -134217728 ≤ ds) (hds1 : ds < 0)
+    (h0 : -16777216 ≤ v) (h1 : v < 16777216) : (toScaled v ds).isSome = true :=
+  toScaled_neg_defined v ds hds0 hds1 h0 h1
+
+example : toScaled 1048576 (-1048576) = some (-65536) ∧ toScaled 16777215 (-2147483648) = none := by
+  decide
+
+/-- **sign_mutant_unobservable** (sweep mutant 08, `negative = true`): on every printed
+fix_word the mutated sign loop of the reader decides exactly like the real one, so the property
+(print, then read) cannot observe it; the `ps` stream (arbitrary text) does. -/
+theorem sign_mutant_unobservable (v : Int) (hlo : -2147483648 ≤ v) (hhi : v ≤ 2147483647) :
+    readSignsT (printFix v) false = readSigns (printFix v) false := by
+  by_cases h : v = -2147483648
+  · subst h; exact signs_mutant_same_at_min
+  · exact signs_mutant_same_on_printed v (by omega) hhi
+
+/-- Sweep mutant 02 (zero printed as `-0.0`): the reader returns the same word. -/
+example : parseFix "R -0.0".toList = ⟨0, .none⟩ ∧ parseFix (plText 0) = ⟨0, .none⟩ := by decide
+
+/-- **late_break_equivalent** (sweep mutant 23, `buffer.len() > max_size + 1`): a candidate pass
+of `compress` whose early `break` comes `extra` intervals later returns the same solution (and
+`delta_lower`) whenever the real pass finds one, and says "not a solution" exactly when the
+real pass does, with a `delta_upper` not above the real one. So the binary search is asked the
+same question at every step; the mutant only does more work. -/
+theorem late_break_equivalent (extra : Nat) (delta : Int) (maxSize : Nat) (l : List Int)
+    (start dlo dhi : Int) (cur : List Int) (done : List (List Int)) :
+    (∀ cls d, passLoop delta maxSize l start dlo dhi cur done = .sol cls d →
+      passLoopL extra delta maxSize l start dlo dhi cur done = .sol cls d) ∧
+    (∀ d, passLoop delta maxSize l start dlo dhi cur done = .fail d →
+      ∃ d', passLoopL extra delta maxSize l start dlo dhi cur done = .fail d' ∧ d' ≤ d) :=
+  ⟨fun cls d h => late_break_sol extra delta maxSize l start dlo dhi cur done cls d h,
+   fun d h => late_break_fail extra delta maxSize l start dlo dhi cur done d h⟩
 
 end C17
